@@ -432,6 +432,7 @@ type caseT struct {
 	Warm          [][2]string // an earlier, different request bound the same way (same type, entry point, options) whose
 	WarmS         []srcCase   // result is then written through (pointers, slices, maps): binds must not share state
 	HasWarm       bool
+	Post          bool      `json:",omitempty"` // the earlier request's content is bound once more - after the observed bind, by the same goroutine, before the observed result is rendered
 	Twice         bool      `json:",omitempty"` // the very same source object (the same []*http.Cookie, url.Values, …) was bound once before, into a scratch value
 	Warmup        int       `json:",omitempty"` // before the first bind of the type in this process: 1 WarmupCache, 2 MustWarmupCache
 	WarmNorm      int       `json:",omitempty"` // the earlier request was bound with WithKeyNormalizer (1 LowerCase, 2 CanonicalMIME) - an option the package stores and never reads
@@ -790,6 +791,7 @@ func genCase1(r *hx.Rand) caseT {
 				c.WarmS = append(c.WarmS, srcCase{Tag: sc.Tag, KV: genSrc(r, ct.Shapes[sc.Tag], sc.Tag, c.Opts.over(c.Call), &nt, r.Range(2, 7))})
 			}
 			c.Tmpl = c.Prefill != 0 && !c.Gen && r.Chance(1, 2)
+			c.Post = r.Chance(1, 3)
 			if r.Chance(1, 6) {
 				c.WarmNorm = r.Range(1, 2)
 			}
@@ -828,11 +830,36 @@ func genCase1(r *hx.Rand) caseT {
 		var nt bool
 		c.Warm = genSrc(r, ct.Shapes[c.Tag], c.Tag, c.Opts, &nt, r.Range(2, 7))
 		c.Tmpl = c.Prefill != 0 && c.Entry == "T" && r.Chance(1, 2)
+		c.Post = r.Chance(1, 3)
 		if r.Chance(1, 6) {
 			c.WarmNorm = r.Range(1, 2)
 		}
 	}
 	return c
+}
+
+// nestedHasTag: a nested (not embedded) struct type below t carries the tag on one of its fields
+func nestedHasTag(t reflect.Type, tag string, depth int) bool {
+	if depth > 6 {
+		return false
+	}
+	for i := 0; i < t.NumField(); i++ {
+		f := t.Field(i)
+		ft := f.Type
+		if ft.Kind() == reflect.Pointer {
+			ft = ft.Elem()
+		}
+		if !f.IsExported() || ft.Kind() != reflect.Struct || ft == timeT || opqKind(ft) >= 0 || isFileT(f.Type) {
+			continue
+		}
+		if !f.Anonymous && (hasTagRef(ft, tag) || nestedHasTag(ft, tag, depth+1)) {
+			return true
+		}
+		if f.Anonymous && nestedHasTag(ft, tag, depth+1) {
+			return true
+		}
+	}
+	return false
 }
 
 // shareSlices makes every slice of dst share the backing array of the corresponding slice of src (two values of
@@ -1630,7 +1657,15 @@ func runApp(c *caseT, dest any, again func() any) (srcs []*srcT, tags []int, err
 			err = ctx.BindOnly(dest)
 		}
 	})
-	req := httptest.NewRequest(http.MethodGet, path, strings.NewReader("{}"))
+	// a type whose own fields carry a body tag gets an empty JSON document; a type that is bound from the URL, the
+	// headers and the cookies only gets a plain GET without body and Content-Type: there is nothing to decode
+	rt := reflect.TypeOf(dest).Elem()
+	hasBody := hasTagRef(rt, "json") || hasTagRef(rt, "form")
+	var body io.Reader
+	if hasBody {
+		body = strings.NewReader("{}")
+	}
+	req := httptest.NewRequest(http.MethodGet, path, body)
 	q := url.Values{}
 	for _, p := range c.Srcs[1].KV {
 		q.Add(p[0], p[1])
@@ -1639,7 +1674,9 @@ func runApp(c *caseT, dest any, again func() any) (srcs []*srcT, tags []int, err
 	for _, p := range c.Srcs[2].KV {
 		req.Header.Add(p[0], p[1])
 	}
-	req.Header.Set("Content-Type", "application/json")
+	if hasBody {
+		req.Header.Set("Content-Type", "application/json")
+	}
 	for _, p := range c.Srcs[3].KV {
 		req.AddCookie(&http.Cookie{Name: p[0], Value: p[1]})
 	}
@@ -1972,7 +2009,26 @@ func emit(id string, c caseT, st *hx.Stats) string {
 		res, err, panicked = outs[0].res, outs[0].err, outs[0].panicked
 		others = outs[1:]
 	default:
-		res, err, panicked = runTimed(ct, &c, s, dest)
+		var post func()
+		if c.Post && c.HasWarm {
+			// a later, different request bound the same way (same goroutine) before the observed result is rendered:
+			// what a bind returned is the caller's - no later bind may change it
+			post = func() {
+				defer func() { _ = recover() }()
+				w := c
+				w.Src, w.Srcs, w.Prefill = c.Warm, c.WarmS, 0
+				w.EvB, w.HasEvC, w.EvC = 0, false, 0 // the observed request's hooks count the observed request only
+				if c.HasWarmCall {
+					w.CallConvs = c.WarmCallConvs
+				}
+				ws := &srcT{}
+				if w.Entry != "B" {
+					ws = buildSrc(w.Tag, w.Src)
+				}
+				_, _, _ = run(ct, &w, ws, ct.E.New())
+			}
+		}
+		res, err, panicked = runTimed(ct, &c, s, dest, post)
 	}
 	anyPanicked := panicked
 	for _, o := range others {
@@ -2067,6 +2123,9 @@ func emit(id string, c caseT, st *hx.Stats) string {
 		}
 		if c.Warmup != 0 {
 			st.Count("first_bind_after_WarmupCache")
+		}
+		if c.Post && c.HasWarm && c.Conc == 0 && c.Entry != "A" {
+			st.Count("later_request_before_result_is_read")
 		}
 		if c.Twice && c.Conc == 0 && (c.Entry == "G" || c.Entry == "T") {
 			st.Count("same_source_object_bound_before")
@@ -2182,10 +2241,10 @@ func runConcurrent(ct *corpusType, c *caseT, s *srcT) []concOut {
 // hung: a bind of this process did not return within hangAfter; the cases after it are not run
 var hung bool
 
-const hangAfter = 5 * time.Second
+const hangAfter = 10 * time.Second
 
 // runTimed is run with a watchdog: a bind that does not return is reported like a panic.
-func runTimed(ct *corpusType, c *caseT, s *srcT, dest any) (res any, err error, panicked bool) {
+func runTimed(ct *corpusType, c *caseT, s *srcT, dest any, post func()) (res any, err error, panicked bool) {
 	type out struct {
 		res      any
 		err      error
@@ -2194,6 +2253,9 @@ func runTimed(ct *corpusType, c *caseT, s *srcT, dest any) (res any, err error, 
 	ch := make(chan out, 1)
 	go func() {
 		r, e, p := run(ct, c, s, dest)
+		if post != nil {
+			post() // a later request, bound by the same goroutine, before the result is looked at
+		}
 		ch <- out{r, e, p}
 	}()
 	select {
@@ -2466,6 +2528,37 @@ func fixedCases() []caseT {
 				out = append(out, caseT{T: ct.E.Name, Tag: 0, Entry: "G", Opts: optsT{-1, -1, -1, false, false, nil}, Src: [][2]string{{lf.Keys[0] + ".a", "v"}}, NT: true})
 			}
 		}
+	}
+	// a []string field bound from a comma-separated value (CSV mode), then a later request with another list before
+	// the result is read: what the first bind returned is the caller's
+	ncsv := 0
+	for _, ct := range types {
+		if ncsv >= 3 {
+			break
+		}
+		for _, lf := range ct.Shapes[0].Leaves {
+			if lf.Kind == "slice" && lf.Prim == "s" && !lf.Nested {
+				ncsv++
+				out = append(out, caseT{T: ct.E.Name, Tag: 0, Entry: hx.Pick(hx.NewRand(uint64(ncsv)), []string{"G", "T"}), Opts: optsT{-1, -1, -1, true, false, nil},
+					Src: [][2]string{{lf.Keys[0], "go, web ,api"}}, HasWarm: true, Warm: [][2]string{{lf.Keys[0], "x,y,z"}}, Post: true, NT: true})
+				break
+			}
+		}
+	}
+	// app.Context.Bind on a bare request for a type whose own fields carry no body tag but whose nested struct
+	// types do: there is no body to bind
+	nnb := 0
+	for _, ct := range types {
+		if nnb >= 2 {
+			break
+		}
+		rt := reflect.TypeOf(ct.E.New()).Elem()
+		if hasTagRef(rt, "json") || hasTagRef(rt, "form") || !nestedHasTag(rt, "form", 0) {
+			continue
+		}
+		nnb++
+		out = append(out, caseT{T: ct.E.Name, Entry: "A", Via: hx.Pick(hx.NewRand(uint64(nnb)), []string{"only", "bind", "must"}), Opts: optsT{-1, -1, -1, false, false, nil},
+			Srcs: []srcCase{{Tag: 1}, {Tag: 0}, {Tag: 3}, {Tag: 4}}, NT: true})
 	}
 	// the same parsed cookies bound twice: a bind leaves its source as it found it (a value that still looks escaped
 	// after one unescape)
